@@ -46,6 +46,8 @@ type Desc struct {
 	// Close that are judged ("after a successful open" holds for every successful open of an object,
 	// not only its first). How the earlier connection ended is ReopenAfter: "" = plain Close,
 	// "eof" = the peer closed the stream and the reader saw it, then Close.
+	// Backlog: that many reads of unsolicited output are delivered and left unread before Close.
+	Backlog int `json:"backlog,omitempty"`
 	// LongOps: the connection's operation timeout is 40 s instead of 3 s (Close must not be bounded by it).
 	LongOps     bool   `json:"long_ops,omitempty"`
 	Reopened    int    `json:"reopened,omitempty"`
@@ -438,6 +440,15 @@ func runClose(d Desc) mon.Result {
 		later()
 		time.Sleep(2 * time.Millisecond)
 	}
+	if d.Backlog > 0 {
+		// nobody reads: the output piles up in the channel's queue
+		s.Conn.Do(func() {
+			for i := 0; i < d.Backlog; i++ {
+				s.Conn.Emit([]byte(fmt.Sprintf("log %09d ..\r\n", i))) // 16 bytes = one read each
+			}
+		})
+		s.Quiesce(8 * time.Second)
+	}
 	ct.arm()
 	switch d.State {
 	case "peer-closed-racing":
@@ -597,6 +608,10 @@ func runClose(d Desc) mon.Result {
 	if d.Reopened > 0 {
 		obs["closes_of_a_reopened_driver:"+d.Driver]++
 	}
+	if d.Backlog > 0 {
+		obs["closes_with_thousands_of_unread_reads_queued"]++
+		obs["unread_reads_delivered_before_close"] += int64(s.Conn.Reads())
+	}
 	if d.OnCloseFails {
 		obs["closes_with_failing_on_close_hooks"]++
 	}
@@ -680,7 +695,7 @@ func gen(tier string, seed int64) []mon.Case {
 	n := 0
 	add := func(d Desc) {
 		d.Seed = seed*100003 + int64(n)
-		cs = append(cs, mon.MkCase(fmt.Sprintf("c07/%05d-%s-%s-%s-rd%d%s%s", n, d.Driver, d.State, d.CloseB, d.ReadDelay, map[bool]string{true: "-alive"}[d.AliveTracks], map[bool]string{true: fmt.Sprintf("-refused%d", d.OpenFails)}[d.OpenFails > 0]+map[bool]string{true: "-hookfails"}[d.OnCloseFails]+map[bool]string{true: "-logsinkfails"}[d.LogSinkFails]+map[bool]string{true: "-hookreads"}[d.OnCloseReads]+map[bool]string{true: fmt.Sprintf("-reopened%d%s", d.Reopened, d.ReopenAfter)}[d.Reopened > 0]+map[bool]string{true: "-longops"}[d.LongOps]), d))
+		cs = append(cs, mon.MkCase(fmt.Sprintf("c07/%05d-%s-%s-%s-rd%d%s%s", n, d.Driver, d.State, d.CloseB, d.ReadDelay, map[bool]string{true: "-alive"}[d.AliveTracks], map[bool]string{true: fmt.Sprintf("-refused%d", d.OpenFails)}[d.OpenFails > 0]+map[bool]string{true: "-hookfails"}[d.OnCloseFails]+map[bool]string{true: "-logsinkfails"}[d.LogSinkFails]+map[bool]string{true: "-hookreads"}[d.OnCloseReads]+map[bool]string{true: fmt.Sprintf("-reopened%d%s", d.Reopened, d.ReopenAfter)}[d.Reopened > 0]+map[bool]string{true: "-longops"}[d.LongOps]+map[bool]string{true: fmt.Sprintf("-backlog%d", d.Backlog)}[d.Backlog > 0]), d))
 		n++
 	}
 	drivers := []string{"generic", "network", "netconf"}
@@ -713,6 +728,10 @@ func gen(tier string, seed int64) []mon.Case {
 					if rd == 250 && cb != "blocked" && (st == "idle-blocked" || st == "peer-closed-unnoticed" || st == "err-parked" || st == "op-in-flight" || st == "second-close") {
 						// "after a successful open" that was preceded by refused attempts on the same object
 						add(Desc{Kind: "close", Driver: dr, State: st, CloseB: cb, ReadDelay: rd, OpenFails: 1 + n%2})
+					}
+					if (rd == 250 || (rd == 0 && tier == "thorough")) && (st == "idle-blocked" || st == "peer-closed-unnoticed" || st == "second-close") {
+						// thousands of reads of unsolicited output queued and never consumed
+						add(Desc{Kind: "close", Driver: dr, State: st, CloseB: cb, ReadDelay: rd, Backlog: 6000 + 1000*(n%5)})
 					}
 					if rd != 0 && (st == "data-arriving" || st == "idle-blocked" || st == "idle-cycling") {
 						// a long operation timeout: nothing in Close may wait it out
